@@ -103,14 +103,16 @@ def run(prop, gi, g, tier, known, do_replay):
             in_repo = all(("/repo/" in f["location"] or f["function"].startswith(("elf::", "<elf::"))) for f in unlisted)
             if rp["reproduced"]:
                 out["violations"].append(dict(harness=hid, what=what + f" [native replay: {rp['detail']}]", replay=rp["path"]))
-            elif rp["reproduced"] is None and in_repo:
-                # Kani decided the failure on the compiled crate code itself (panic/overflow/index/unwinding check located in /repo),
-                # but could not emit a concrete playback test (trace generation ran out of resources): still a solver-decided violation
+            elif rp["reproduced"] is None:
+                # The solver decided the failure (a panic/overflow/index/unwinding check inside the crate, or a property assertion of the
+                # harness) on the compiled code, but Kani could not emit a concrete playback test (trace generation ran out of memory or
+                # the harness has no symbolic input): still reported, marked as not natively replayed. Arithmetic/index failures inside
+                # the harness code itself were filtered out above (harness bugs).
                 with open(rp["path"], "a") as fh:
                     fh.write("// Kani/CBMC reported these failing checks inside the crate under test (no concrete playback test could be generated):\n")
                     for f in unlisted:
                         fh.write(f"//   {f['category']}: {f['description']} in {f['function']} ({f['location']})\n")
-                out["violations"].append(dict(harness=hid, what=what + f" [no native playback: {rp['detail']}; the failing check is inside the crate under test]", replay=rp["path"]))
+                out["violations"].append(dict(harness=hid, what=what + f" [solver verdict; no native playback: {rp['detail']}]", replay=rp["path"]))
             else:
                 out["inconclusive"].append(f"harness {hid}: solver counterexample did not reproduce natively "
                                            f"({rp['detail']}); failing checks: {what}; see {rp['path']}")
